@@ -42,6 +42,7 @@ type Engine struct {
 	Workers    int
 	Verbose    bool
 	SkipGo     bool
+	SyncGo     []string // function-name prefixes whose go statements run to completion at the spawn point
 	TraceSMT   bool
 	Progress   bool
 
@@ -73,6 +74,7 @@ func NewEngine(modulePath string) *Engine {
 	registerRLP(e)
 	registerCrypto(e)
 	registerKeccak(e)
+	registerSnapshot(e)
 	return e
 }
 
